@@ -262,6 +262,37 @@ Theorem C17_run_operations_one : forall fx st t,
 Proof. exact run_operations_one. Qed.
 Print Assumptions C17_run_operations_one.
 
+(* ---- the table given as a FILE PATH (Dispatcher.get_data_file / read_table):
+   running on a path is running on the frame read from it; reading never
+   produces a missing value; a column that is not all integers keeps the text
+   of every cell (None, NA, null, nan, NULL, the empty cell ... stay text);
+   the only text the dispatcher treats as missing is n/a, every other text
+   survives the n/a <-> NaN conversion around each step. ---- *)
+Theorem C17_run_path_is_frame : forall fx sts cs rs,
+  run_path fx sts cs rs = run_operations fx sts (read_table cs rs).
+Proof. exact run_path_is_frame. Qed.
+Print Assumptions C17_run_path_is_frame.
+
+Theorem C17_read_table_no_nan : forall cs rs, no_nan (read_table cs rs).
+Proof. exact read_table_no_nan. Qed.
+Print Assumptions C17_read_table_no_nan.
+
+Theorem C17_read_table_text : forall cs rs r j,
+  In r rs -> length r = length cs -> j < length cs ->
+  forallb (fun r0 => is_int_text (nth j r0 [])) rs = false ->
+  forall k, nth_error rs k = Some r ->
+  get_cell j (nth k (rows (read_table cs rs)) []) = CStr (nth j r []).
+Proof. exact read_table_text. Qed.
+Print Assumptions C17_read_table_text.
+
+Theorem C17_only_na_is_missing : forall s, prep_cell (CStr s) = CNa <-> s = s_na.
+Proof. exact prep_cell_na_iff. Qed.
+Print Assumptions C17_only_na_is_missing.
+
+Theorem C17_text_round_trip : forall s, post_cell (prep_cell (CStr s)) = CStr s.
+Proof. exact prep_post_text. Qed.
+Print Assumptions C17_text_round_trip.
+
 (* ---- the caller's table is unchanged (true by construction: tables are values) ---- *)
 Theorem C17_input_unchanged : forall fx sts input, fst (run_on_input fx sts input) = input.
 Proof. exact input_unchanged. Qed.
@@ -311,6 +342,13 @@ Theorem C17_invalid_never_executed : forall fx ops ts,
   validate fx ops = Ok false -> remodel fx ops ts = Ok Rejected.
 Proof. exact invalid_never_executed. Qed.
 Print Assumptions C17_invalid_never_executed.
+
+(* validation returns a verdict for EVERY JSON value -- any nesting, any key
+   spelling, any value kinds -- and never raises; the only other outcome in the
+   model is leaving the fragment (an operation other than the eight) *)
+Theorem C17_validate_never_raises : forall fx ops e, validate fx ops = Exn e -> e = Unmodelled.
+Proof. exact validate_never_raises. Qed.
+Print Assumptions C17_validate_never_raises.
 
 (* a list without messages always constructs (no exception from any of the
    eight constructors) and is run on every table: FULL statement *)
